@@ -5,8 +5,8 @@ _unpack_contents/_decrypt_rwcapdata/Adder, nodemaker.create_from_cap/create_new_
 create_immutable_directory, unknown.UnknownNode, netstring, jsonbytes, normalize.  Fake: where the
 packed bytes are kept (vt/lib_memdir.py).
 
-Space.  ENTRY = (name from NAMES[14], cap from the cap catalogue[33: every cap kind of uri.py, known
-caps in the "wrong" slot / with ro. imm. prefixes, MDMF with extension fields, 9 unknown-cap shapes
+Space.  ENTRY = (name from NAMES[14], cap from the cap catalogue[35: every cap kind of uri.py, known
+caps in the "wrong" slot / with ro. imm. prefixes, MDMF with extension fields, 11 unknown-cap shapes (also a ro./imm.-prefixed one given alone in the write slot)
 incl. netstring-looking and non-ASCII ones], metadata from META[8]).
   singles : EVERY entry (full product)
   pairs   : EVERY unordered pair of names x EVERY ordered pair of caps x metadata pairs from
@@ -123,6 +123,8 @@ def catalogue(w):
         ("unknown-rw+ro", b"x-tahoe-crazy://I_am_from_the_future.", b"x-tahoe-crazy-readonly://I_am_from_the_future.", "unk-rw"),
         ("unknown-ro.prefixed", None, b"ro.x-tahoe-crazy-readonly://prefixed", "unk-ro"),
         ("unknown-imm.prefixed", None, b"imm.x-tahoe-crazy-immutable://prefixed", "unk-ro"),
+        ("unknown-ro.prefixed-in-rw-slot", b"ro.x-tahoe-crazy-readonly://lone", None, "unk-ro"),
+        ("unknown-imm.prefixed-in-rw-slot", b"imm.x-tahoe-crazy-immutable://lone", None, "unk-ro"),
         ("unknown-netstringish", b"x-f:0:,1:a,9:rw", "x-f-ro:3:abc,2:☺,".encode("utf-8"), "unk-rw"),
         ("unknown-rw-only", b"x-tahoe-crazy://rw-only", None, "notchild"),
         ("ro.SSK-writecap", None, b"ro." + S(ssk), "notchild"),
